@@ -10,6 +10,7 @@ Well-formed 4-bit matrix `t : T Nat` of size `[N, K]`: `t.shape = [N, K]`,
 import Proofs.C15.Back
 import Proofs.C15.Denote
 import Proofs.C15.Sample
+import Proofs.C15.Select
 
 namespace Quanto
 
@@ -151,6 +152,74 @@ theorem C15_counterexample_back_ungrouped (p : T Nat) (s z : T FV) :
     (⟨[4, 256], 128, p, s, z⟩ : AwqBits).origBackDataShape ≠ [4 * 256 / 128, 128] := by
   show ([4, 256] : List Nat) ≠ [4 * 256 / 128, 128]
   decide
+
+
+/-! ### selection of the optimised representation (`QBitsTensor.create`, `optimize`, `_to_copy`) -/
+
+/-- T8: the decision of `QBitsTensor.create`, *as the extractor read it from the source text on this
+run* (`Generated.awqCreateConds`), is the closed form `awqSelected`: every conjunct is understood
+and their conjunction is the model's.  An edit of the condition breaks this theorem. -/
+theorem C15_create_decision_regenerated (c : CreateCfg) : awqSelectedGen c = some (awqSelected c) :=
+  awqSelectedGen_eq c
+
+/-- T8: the AWQ representation is selected exactly for int4, float16, first axis, groups of 128,
+rank 2, on a CUDA device of major capability at least 8. -/
+theorem C15_create_selects_iff (c : CreateCfg) :
+    createOutcome c ≠ .ok .qbits ↔ (c.qtype = "qint4" ∧ c.dtype = "f16" ∧ c.axis = 0 ∧
+      c.groupSize = 128 ∧ c.size.length = 2 ∧ c.devType = "cuda" ∧ 8 ≤ c.capMajor) := by
+  rw [← awqSelected_iff]
+  unfold createOutcome
+  cases awqSelected c <;> simp
+  split <;> simp
+
+/-- T8: the text of `optimize` and of `_to_copy` is what the model assumes (a subclass instance is
+returned as is; a subclass instance is converted back before it changes device type; the result is
+built by `create`). -/
+theorem C15_optimize_to_copy_text :
+    Generated.awqOptimizeConds = ["type(self) != QBitsTensor", "=> return self"] ∧
+    Generated.awqToCopyConds.getD 1 "" = "type(t) != QBitsTensor | t.device.type != device.type => t = t.qbits_tensor()" ∧
+    Generated.awqToCopyConds.getLast? = some "return QBitsTensor.create" := by decide
+
+/-- T9: off CUDA — in particular after `_to_copy` to the CPU, i.e. when leaving the GPU or
+serializing — the result is always the standard representation. -/
+theorem C15_create_off_cuda_is_standard (c : CreateCfg) (h : c.devType ≠ "cuda") :
+    createOutcome c = .ok .qbits := create_off_cuda c h
+
+theorem C15_to_copy_off_cuda_is_standard (c : CreateCfg) (target : String) (cap : Nat)
+    (h : target ≠ "cuda") : toCopyOutcome c target cap = .ok .qbits :=
+  create_off_cuda _ h
+
+/-- T9: a subclass instance that changes device type is converted back first. -/
+theorem C15_to_copy_converts_back (c : CreateCfg) (target : String) (h : c.devType ≠ target) :
+    toCopyConvertsBack .awq c target = true := by
+  simp [toCopyConvertsBack, h]
+
+/-- T10 (partial: rows a multiple of 4): whenever the AWQ representation is selected for a tensor
+that is validly grouped (the group size divides the columns) and has a multiple of 4 rows, the
+construction is admissible — and `C15_back_conversion`'s divisibility hypotheses hold. -/
+theorem C15_create_selected_admissible_partial (c : CreateCfg) (N K : Nat)
+    (hsel : awqSelected c = true) (hsize : c.size = [N, K]) (hK : c.groupSize ∣ K) (hN : 4 ∣ N)
+    (hN0 : 0 < N) (hK0 : 0 < K) :
+    createOutcome c = .ok .awq ∧ 4 ∣ N ∧ 64 ∣ K := by
+  refine ⟨create_selected_admissible c N K hsel hsize hK hN hN0 hK0, hN, ?_⟩
+  have hg : c.groupSize = 128 := ((awqSelected_iff c).mp hsel).2.2.2.1
+  rw [hg] at hK
+  omega
+
+/-- T10 at full strength is false: a float16 int4 weight of 6 rows and 128 columns is selected for
+the AWQ representation on a capability-8 device although `pack_v2` cannot pack 6 rows. -/
+theorem C15_counterexample_create_selects_inadmissible :
+    ∃ c : CreateCfg, c.size = [6, 128] ∧ c.groupSize ∣ 128 ∧ awqSelected c = true ∧
+      createOutcome c = .raises :=
+  ⟨⟨"qint4", "f16", 0, 128, [6, 128], "cuda", 8⟩, rfl, by decide, by decide, by decide⟩
+
+/-- T11: `optimize` is idempotent — optimizing the result again returns the same class. -/
+theorem C15_optimize_idempotent (cls : QCls) (c : CreateCfg) (r : QCls)
+    (h : optimizeOutcome cls c = .ok r) : optimizeOutcome r c = .ok r := optimize_idem cls c r h
+
+/-- non-vacuity of T10: a [8, 256] weight on a capability-9 device -/
+example : createOutcome ⟨"qint4", "f16", 0, 128, [8, 256], "cuda", 9⟩ = .ok .awq ∧ 4 ∣ 8 ∧ 64 ∣ 256 :=
+  C15_create_selected_admissible_partial _ 8 256 (by decide) rfl (by decide) (by decide) (by decide) (by decide)
 
 /-! ### non-vacuity: concrete instances satisfy the hypotheses
 (`c15Sample` is the `[4, 64]` matrix with codes `i % 16`, see `Proofs/C15/Sample.lean`) -/
